@@ -190,6 +190,9 @@ def run(ctx):
     # ------------------------------------------------------------------ R10.10 (generic, scoped to this property's anchors)
     sm.rule_named_plumbing(ctx, mir, "C10", "R10.10", floor=21)
 
+    # ------------------------------------------------------------------ R10.11
+    rule_errors_not_swallowed(ctx, mir)
+
     ctx.not_decided += ["monotonicity in M and equality of outputs across limits (relations between runs)", "that Vec::try_reserve_exact reserves exactly what was charged (allocator behaviour)"]
     return ("Accounting clauses: charge-dominates-grow on the two limited containers with operand identity, error discipline for every "
             "Result carrying MemoryLimitExceededError (23 sites), the comparison shape of the limiter, a type-driven inventory of every growable "
@@ -340,11 +343,13 @@ def rule_charge_before_grow(ctx, mir, rid="R10.1"):
         else:
             cm0 = list(f.calls(r"usize::checked_mul$|checked_mul$"))
             same_root = bool(cm0) and f.root_place(rt["args"][1]) is not None and f.root_place(cm0[0][1]["args"][0]) is not None and f.root_place(rt["args"][1])[0] == f.root_place(cm0[0][1]["args"][0])[0]
-            if ra != "additional" and not same_root:
-                r.violate(key + "|reserved-amount", f"LimitedVec::push reserves `{ra}`, expected the `additional` element count that was charged", f.loc())
+            same_expr = bool(cm0) and f.deep(rt["args"][1]) == f.deep(cm0[0][1]["args"][0])
+            if not (same_root and same_expr):
+                r.violate(key + "|reserved-amount", f"LimitedVec::push reserves `{f.deep(rt['args'][1])[:100]}` elements but charged for `{f.deep(cm0[0][1]['args'][0])[:100] if cm0 else '?'}`: the element count that is reserved must be the very value that was multiplied by size_of::<T>() and charged", f.loc())
             cm = list(f.calls(r"usize::checked_mul$|checked_mul$"))
-            ok = len(cm) == 1 and f.describe_operand(cm[0][1]["args"][0]) == "additional" and "size_of" in f.describe_operand(cm[0][1]["args"][1])
-            if not ok or ia != "additional_bytes":
+            ok = len(cm) == 1 and "size_of" in f.describe_operand(cm[0][1]["args"][1])
+            charged_from_mul = len(cm) == 1 and ("checked_mul(" + f.deep(cm[0][1]["args"][0])) in f.deep(it["args"][1])
+            if not ok or not charged_from_mul:
                 r.violate(key + "|charged-amount", f"LimitedVec::push charges `{ia}`, expected additional.checked_mul(size_of::<T>())", f.loc())
         for gbi, gt in grow:
             k2 = key + "|growth:" + callee_key(gt)
@@ -469,4 +474,51 @@ def rule_limit_errors(ctx, mir, rid="R10.2"):
     r.inst("controller|vm-error-mapping", sample={"aggregates": sorted(set(a.split('::')[-1] for a in aggs))})
     if not any(a.endswith("RewritingError::MemoryLimitExceeded") for a in aggs):
         r.violate("controller|vm-error-mapping", "HtmlRewriteController::handle_start_tag no longer maps VmError::MemoryLimitExceeded to RewritingError::MemoryLimitExceeded", rc.loc())
+
+
+# Results that are examined and whose Err edge may legitimately end in a normal return: (function, error type) ->
+# (number of such examinations, an Err return must stay reachable from the Err edge, reason)
+HANDLED_LOCALLY = {
+    ("HtmlRewriteController::handle_start_tag[TransformController]", "VmError"): (1, False, "VmError is translated variant by variant into DispatcherError (InfoRequest is a request for the lexeme, MemoryLimitExceeded becomes RewritingError) and returned as this function's own Err"),
+    ("Parser::parse", "ActionError"): (1, True, "the parse loop always ends with Err: ParsingTermination::EndOfInput is the normal end (Ok(consumed)), every other ActionError is returned"),
+    ("DynamicString::encode", "StreamingHandler"): (1, True, "Mutex::into_inner: both arms carry the handler (a poisoned lock is not a failure here)"),
+    ("TextDecoder::split_utf8_start", "usize"): (1, True, "Err carries valid_up_to, not a failure"),
+    ("IncompleteUtf8Resync::utf8_bytes_to_slice", "Utf8Error"): (1, True, "the Utf8Error's valid_up_to drives the resynchronisation"),
+    ("Attributes::remove_attribute", "AttributeNameError"): (1, False, "a name that is not a valid attribute name cannot be present: nothing to remove"),
+    ("Dispatcher::adjust_capture_flags_for_tag_lexeme", "DispatcherError"): (2, True, "InfoRequest asks for the lexeme (handled here); the RewritingError variant is returned"),
+    ("Dispatcher::handle_start_tag_hint[TagHintSink]", "DispatcherError"): (2, True, "InfoRequest switches the parser to the lexer (handled here); the RewritingError variant is returned"),
+    ("Expr::compile[Compilable]", "HasReplacementsError"): (1, False, "a name that cannot be encoded in the document encoding can never match: compiled to a never-matching instruction"),
+}
+
+
+def rule_errors_not_swallowed(ctx, mir, rid="R10.11"):
+    from ..mirlib import swallowed_errors, examined_results
+    r = ctx.rule(rid, "no error is swallowed: wherever a whole Result is examined (match / if let) in a non-test function, its Err edge leads to a block that builds this function's Err return, except at the reviewed sites that handle the error locally (table with reasons); at those of the reviewed sites that propagate one variant, an Err return stays reachable from the Err edge", "E-MIR path reachability", floor=15)
+    found = {}
+    n = 0
+    for f in mir.fns:
+        if mir.is_test_fn(f):
+            continue
+        n += len(examined_results(f))
+        for sb, loc, ty, canerr in swallowed_errors(f):
+            et = ty[len("std::result::Result<"):-1].rsplit(", ", 1)[-1]
+            while et.startswith("std::boxed::Box<") and et.endswith(">"):
+                et = et[len("std::boxed::Box<"):-1]
+            et = re.sub(r"<.*", "", et.replace("dyn ", "")).split(" ")[0].split("::")[-1]
+            found.setdefault((f.key, et), []).append((f, sb, loc, ty, canerr))
+    for key, lst in found.items():
+        f = lst[0][0]
+        k = "%s|%s" % key
+        r.inst(k, sample={"function": key[0], "error_type": key[1], "examinations": len(lst), "err_return_reachable": [x[4] for x in lst]})
+        rev = HANDLED_LOCALLY.get(key)
+        if rev is None or len(lst) > rev[0]:
+            what = f.deep({"k": "copy", "p": {"local": lst[-1][2], "proj": []}})[:100]
+            r.violate(k, f"{key[0]} examines `{what}` (Result<_, {key[1]}>) and continues to a normal return on its Err edge: the error (a memory-limit or handler failure travels in this type) is dropped and the caller sees success", f.loc())
+        elif rev[1] and not any(x[4] for x in lst):
+            r.violate(k + "|propagates", f"{key[0]}: no Err return is reachable any more from the Err edge of the examined Result<_, {key[1]}> ({rev[2]})", f.loc())
+    for key in HANDLED_LOCALLY:
+        r.inst("reviewed|%s|%s" % key, nontrivial=False)
+    r.count("results_examined", n)
+    if n < 15:
+        raise EngineError(f"{rid}: only {n} examined Results found")
 
